@@ -83,6 +83,24 @@ Example assertion_examples :
   resolve_assigned false (fun _ => 2%Z) false h [] (mk PReal (5 # 2) (27 # 2)) = Err EAssertOff.
 Proof. cbn zeta. split; [eexists; vm_compute; reflexivity|]. split; [eexists; vm_compute; reflexivity|]. vm_compute. reflexivity. Qed.
 
+(* an assertion on an ordinary posting counts ordinary postings only: the (virtual) and [balanced virtual] postings the
+   account received could as well not be there; one on a virtual posting counts all (real_only = false filters nothing) *)
+Theorem real_assertion_ignores_virtual_postings : forall ord acct hist acc,
+  acct_total ord hist acct true acc =
+  acct_total ord (filter (fun h => negb (a_virtual h)) hist) acct true acc.
+Proof. exact acct_total_real_only_ignores_virtual. Qed.
+Print Assumptions real_assertion_ignores_virtual_postings.
+
+(* the layout of the input plays no part: a journal read in two stretches - an included file, the file of a second -f
+   option - gives the outcomes of the concatenation, the pool and the per-account histories carried over (this is what
+   /repo ebab97c restored for several -f files, finding F60) *)
+Theorem journal_read_in_stretches_is_the_concatenation : forall ord permissive xs ys pl hist,
+  run_journal_a ord permissive pl hist (xs ++ ys) =
+  run_journal_a ord permissive pl hist xs ++
+  (let (pl', hist') := state_after ord permissive pl hist xs in run_journal_a ord permissive pl' hist' ys).
+Proof. exact run_journal_a_app. Qed.
+Print Assumptions journal_read_in_stretches_is_the_concatenation.
+
 (* the tie to the source by translation: the lines of /repo/src this model transcribes (harness/translators/src_guards.py
    lists them, with the function each is looked for in) are still there, in the same order, in the source as it is NOW -
    coq/Gen/SourceGuards.v is regenerated on every run and names the guards that are false *)
